@@ -672,7 +672,82 @@ def unit_reader():
     return "\n".join(out)
 
 
-FUN_UNITS = [("GE", unit_ge), ("Compression", unit_compression), ("Dims", unit_dims), ("Copc", unit_copc), ("Reader", unit_reader)]
+_AST_OPS = {"Lt": "<", "LtE": "<=", "Gt": ">", "GtE": ">=", "Eq": "==", "NotEq": "!=", "Add": "+", "Sub": "-", "Mult": "*",
+            "Div": "/", "FloorDiv": "//", "Mod": "%", "Pow": "**", "BitAnd": "&", "BitOr": "|", "BitXor": "^",
+            "LShift": "<<", "RShift": ">>", "MatMult": "@"}
+
+
+def unit_views():
+    """the operator methods of the dimension views (laspy/point/dims.py): which numpy operator / comparison each special
+    method hands its operands to. `ArrayView.__op__` must be `return np.array(self) <op> other`; the sub-field and scaled
+    views route their comparisons through `_do_comparison` with an operator (object or method name)."""
+    import ast
+    import inspect
+    import textwrap
+    from laspy.point import dims
+
+    def methods(cls):
+        tree = ast.parse(textwrap.dedent(inspect.getsource(cls)))
+        return {n.name: n for n in tree.body[0].body if isinstance(n, ast.FunctionDef)}
+
+    def is_materialised_self(node):
+        return (isinstance(node, ast.Call) and dotted(node.func) == "np.array" and len(node.args) == 1 and not node.keywords
+                and isinstance(node.args[0], ast.Name) and node.args[0].id == "self")
+
+    def single_return(fd):
+        body = [s for s in fd.body if not (isinstance(s, ast.Expr) and isinstance(s.value, ast.Constant))]
+        if len(body) != 1 or not isinstance(body[0], ast.Return):
+            raise TranslationError(f"{fd.name}: not a single return statement")
+        return body[0].value
+
+    out = ["namespace Views"]
+    rows = []
+    for name, fd in methods(dims.ArrayView).items():
+        if not (name.startswith("__") and name.endswith("__")) or name in ("__init__", "__array__", "__getitem__", "__setitem__",
+                                                                            "__array_ufunc__", "__array_function__", "__len__", "__repr__"):
+            continue
+        v = single_return(fd)
+        other = fd.args.args[1].arg if len(fd.args.args) == 2 else None
+        if isinstance(v, ast.Compare) and len(v.ops) == 1 and is_materialised_self(v.left) and isinstance(v.comparators[0], ast.Name) \
+                and v.comparators[0].id == other:
+            rows.append((name, _AST_OPS[type(v.ops[0]).__name__]))
+        elif isinstance(v, ast.BinOp) and is_materialised_self(v.left) and isinstance(v.right, ast.Name) and v.right.id == other:
+            rows.append((name, _AST_OPS[type(v.op).__name__]))
+        else:
+            raise TranslationError(f"ArrayView.{name}: not `np.array(self) <op> other`")
+    out.append("def arrayViewOps : List (String × String) := " + lean_list(f"({lean_str(a)}, {lean_str(b)})" for a, b in rows))
+    rows = []
+    for name in ("max", "min"):
+        v = single_return(methods(dims.ArrayView)[name])
+        if not (isinstance(v, ast.Call) and isinstance(v.func, ast.Attribute) and is_materialised_self(v.func.value)):
+            raise TranslationError(f"ArrayView.{name}: not a method of the materialised array")
+        rows.append((name, v.func.attr))
+    out.append("def arrayViewMinMax : List (String × String) := " + lean_list(f"({lean_str(a)}, {lean_str(b)})" for a, b in rows))
+    for cls, lean_name in ((dims.SubFieldView, "subFieldCmp"), (dims.ScaledArrayView, "scaledCmp")):
+        rows = []
+        for name, fd in methods(cls).items():
+            if name not in ("__lt__", "__le__", "__gt__", "__ge__", "__eq__", "__ne__"):
+                continue
+            v = single_return(fd)
+            if not (isinstance(v, ast.Call) and dotted(v.func) == "self._do_comparison" and len(v.args) == 2
+                    and isinstance(v.args[0], ast.Name) and v.args[0].id == fd.args.args[1].arg):
+                raise TranslationError(f"{cls.__name__}.{name}: not `self._do_comparison(other, <operator>)`")
+            a = v.args[1]
+            if isinstance(a, ast.Constant) and isinstance(a.value, str):
+                opn = a.value.strip("_")
+            elif dotted(a).startswith("operator."):
+                opn = dotted(a).split(".", 1)[1]
+            else:
+                raise TranslationError(f"{cls.__name__}.{name}: operator argument not recognised")
+            rows.append((name, opn))
+        out.append(f"def {lean_name} : List (String × String) := " + lean_list(f"({lean_str(a)}, {lean_str(b)})" for a, b in rows))
+    out.append("end Views")
+    out.append("")
+    return "\n".join(out)
+
+
+FUN_UNITS = [("GE", unit_ge), ("Compression", unit_compression), ("Dims", unit_dims), ("Copc", unit_copc), ("Reader", unit_reader),
+             ("Views", unit_views)]
 
 
 # --------------------------------------------------------------------------
